@@ -138,7 +138,11 @@ class Contract:
     def assume_clauses(self):
         return self.assumes
 
-    def ensures_clauses(self):
+    def ensures_clauses(self, caller=False):
+        """ghost clauses (proof steps that mention the function's locals) are proved in the function itself and
+        are not part of what callers may assume"""
+        if caller:
+            return [(l, c) for (l, c) in self.ensures if not l.startswith("ghost")]
         return self.ensures
 
 
@@ -604,8 +608,9 @@ class World:
         for (pn, pty), a in zip(sf.params, args):
             terms = self.spec_arg_terms(a, pty, ctx, fv)
             env[pn] = self.spec_value(terms, pty)
-            if a.kind() == "ref" and env[pn].kind() == "ref" and a.ty[1] is not None:
-                env[pn] = V(a.ty, a.t, exact=a.exact)
+            if a.kind() == "ref" and env[pn].kind() == "ref":
+                # keep the more precise class and the pinned (old) heap of the actual argument
+                env[pn] = V(a.ty if a.ty[1] is not None else env[pn].ty, a.t, aux=a.aux, exact=a.exact)
         body = fn_return_expr(sf.node) if not sf.axioms_only else None
         if not sf.recursive and not sf.axioms_only:
             v = fv.eval(body, Ctx(env, ctx.heap, spec=True, fuel=ctx.fuel))
@@ -920,9 +925,9 @@ class World:
                 # generated dataclass __init__: self.<n> = <n>; fresh object, so reveal instead of store
                 fkey, fty = self.field_key(cname, n)
                 val = fv.coerce(vals[n], fty, e)
-                fv.assume(z3.Select(fv.heap.get(fkey, sort_of(fty)), obj.t) == val.t)
+                fv.reveal(fkey, sort_of(fty), obj.t, val.t)
                 if isinstance(fty, tuple) and fty[0] == "opt":
-                    fv.assume(z3.Select(fv.heap.get(fkey + "?", BoolS), obj.t) == val.aux)
+                    fv.reveal(fkey + "?", BoolS, obj.t, val.aux)
             fv.world.note_callee(fv.label, f"dataclass:{cname}")
             return obj
         raise VCError(f"class {cname} has no __init__ and is no dataclass")
@@ -1037,7 +1042,7 @@ class World:
                 post = Ctx(bound, ctx.heap, spec=True, old=sctx, result=res, fuel=ctx.fuel)
                 fv.soft_mode = True
                 try:
-                    for label, clause in c.ensures_clauses():
+                    for label, clause in c.ensures_clauses(caller=True):
                         fv.assume(fv.eval_spec_bool(clause, post))
                 finally:
                     fv.soft_mode = False
@@ -1072,7 +1077,7 @@ class World:
         post = Ctx(bound, fv.heap, spec=True, old=old_ctx, result=res)
         fv.soft_mode = True
         try:
-            for label, clause in c.ensures_clauses():
+            for label, clause in c.ensures_clauses(caller=True):
                 fv.assume(fv.eval_spec_bool(clause, post))
         finally:
             fv.soft_mode = False
@@ -1271,7 +1276,7 @@ class World:
     def bi_cast(self, e, ctx, fv):
         """spec: cast(x, "Class") - static view of a reference as a class (no obligation: use under typeof/isinstance)"""
         v = fv.eval(e.args[0], ctx)
-        return mk_ref(v.t, e.args[1].value)
+        return V(("ref", e.args[1].value), v.t, aux=v.aux)
 
     def bi_class_attr(self, e, ctx, fv):
         """spec: class_attr("Class.attr") - the list object bound to a class attribute; its contents are read
@@ -1307,6 +1312,11 @@ class World:
             fv.reveal_strip = saved
         return mk_bool(True)
 
+    def bi_cur(self, e, ctx, fv):
+        """spec: cur(old.x.y) - the same object, viewed in the current state"""
+        v = fv.eval(e.args[0], ctx)
+        return V(v.ty, v.t, exact=v.exact)
+
     def bi_only_chars(self, e, ctx, fv):
         """spec: only_chars(s, "abc") - every character of s is one of the given (literal) characters"""
         v = fv.eval(e.args[0], ctx)
@@ -1323,7 +1333,7 @@ class World:
         v = fv.eval(e.args[0], ctx)
         if ctx.old is None:
             raise VCError("fresh() outside a postcondition")
-        return mk_bool(z3.And(v.t != NULL, birth(v.t) >= ctx.old.heap.now, birth(v.t) < ctx.heap.now))
+        return mk_bool(z3.And(v.t != NULL, birth(v.t) >= 0, birth(v.t) >= ctx.old.heap.now, birth(v.t) < ctx.heap.now))
 
     def bi_allocated(self, e, ctx, fv):
         v = fv.eval(e.args[0], ctx)
